@@ -194,11 +194,17 @@ def session_idle_cut(run, rng, K, tau, Tconn, idle_steps, label):
         cut_at = None
         first_timedout = None
         first_dropped = None
+        def last_accept(who):
+            """time of the last datagram that endpoint accepted, as observed by the harness (not read
+            from the connection's own liveness field)"""
+            acc = net.accepted[who]
+            return acc[-1][0] if acc else net.ep(who).now0
+
         for i in range(idle_steps):
             net.step()
             srv, cli = net.B.impl.conn, net.A.impl.conn
-            if srv.timedout(Tconn / T):
-                viol.append(("spurious-server-timeout", {"step": i}))
+            if srv.timedout(Tconn / T) != (net.t - last_accept("server") >= Tconn):
+                viol.append(("spurious-server-timeout", {"step": i, "now": net.t, "last_accepted": last_accept("server")}))
             if cli.status.value == 5:
                 viol.append(("spurious-client-dropped", {"step": i}))
         for who in ("client", "server"):
@@ -212,8 +218,8 @@ def session_idle_cut(run, rng, K, tau, Tconn, idle_steps, label):
         net.cfg["loss"] = 1.0
         net.flight = []
         cut_at = net.t
-        last_srv = S.ticks(net.B.impl.conn.last_recv_time)
-        last_cli = S.ticks(net.A.impl.conn.last_recv_time)
+        last_srv = last_accept("server")
+        last_cli = last_accept("client")
         steps_after = (max(Tconn, 5 * T) + 2 * T) // tau + 3
         for i in range(steps_after):
             net.step()
@@ -292,10 +298,10 @@ def run(run):
         impl.append(1 if (c.status == ConnectionStatus.DISCONNECTED or c.timedout(Tm / T)) else 0)
     run.compare("sweep_drops", cases, impl, run.model.call_many("sweep_drops", cases))
     # 4. idle / cut sessions on the configuration grid
-    grid = [(K, tau, Tc) for K in (768, 1536, 3000, 7680) for tau in (300, 600, 1500) for Tc in (2 * T, 5 * T)
+    grid = [(K, tau, Tc) for K in (768, 1536, 3000, 7680) for tau in (300, 600, 1500) for Tc in (7680, 2 * T, 5 * T)
             if max(K, 256) + 2 * tau < Tc]
     if not th:
-        grid = rng.sample(grid, 6)
+        grid = rng.sample([g for g in grid if g[2] == 7680], 2) + rng.sample(grid, 5)
     scases, simpl, smod = [], [], []
     for n, (K, tau, Tc) in enumerate(grid):
         idle_steps = max(40, (12 * K) // tau)
